@@ -493,7 +493,10 @@ impl G1 {
         if sign != 2 && sign != 3 {
             return Err(CurveError::InvalidEncoding);
         }
-        let x = Fq::from_slice(&bytes[1..]).ok_or(CurveError::InvalidEncoding)?;
+        // strict conversion: a coordinate must be below q (Fq::from_slice would reduce it)
+        let x = fields::Fq::from_slice(&bytes[1..])
+            .map(Fq)
+            .ok_or(CurveError::InvalidEncoding)?;
         let y_squared = (x * x * x) + Self::b();
         let mut y = y_squared.sqrt().ok_or(CurveError::NotMember)?;
         let is_even = sign & 1 == 0;
@@ -556,8 +559,13 @@ impl G1 {
             return Err(CurveError::InvalidEncoding);
         }
 
-        let x = Fq::from_slice(&bytes[..32]).ok_or(CurveError::InvalidEncoding)?;
-        let y = Fq::from_slice(&bytes[32..]).ok_or(CurveError::InvalidEncoding)?;
+        // strict conversion: a coordinate must be below q (Fq::from_slice would reduce it)
+        let x = fields::Fq::from_slice(&bytes[..32])
+            .map(Fq)
+            .ok_or(CurveError::InvalidEncoding)?;
+        let y = fields::Fq::from_slice(&bytes[32..])
+            .map(Fq)
+            .ok_or(CurveError::InvalidEncoding)?;
 
         AffineG1::new(x, y)
             .map_err(|_| CurveError::NotMember)
